@@ -30,18 +30,16 @@ theorem per_all (N : Nat) (hN : 0 < N) (C : Nat → Prop) (hper : ∀ i, C (i + 
 /-- **the no-fold regime of a closed polygon** with the `N = m + 1` points `pt 0 … pt m`, `pt` continued
 `N`-periodically: on one period, no point is merged with its successor, every edge is longer than `eps`, no
 U-turn at any point (first guard of `compute_normal`), the model's fold test answers "no fold" at every
-point, every edge is at least `w/2·(|tan(θ_a/2)| + |tan(θ_b/2)| + 1)` long (`θ_a`, `θ_b` the turns at its ends);
-with `LineJoin::MiterClip` only: no miter exceeds the miter limit (`keptAt`) -/
+point, every edge is at least `w/2·(|tan(θ_a/2)| + |tan(θ_b/2)| + 1)` long (`θ_a`, `θ_b` the turns at its ends) -/
 def RegimeC (e : Env K) (eps : K) (pt : Nat → P K) (m : Nat) : Prop :=
   (∀ i, i < m + 1 → pointsAreTooClose e.thr (pt i) (pt (i + 1)) = false)
   ∧ (∀ i, i < m + 1 → eps < eL pt i)
   ∧ (∀ i, i < m + 1 → ¬ (eT pt i + eT pt (i + 1)).sqLen < normalEpsilon)
   ∧ (∀ i, i < m + 1 → noFoldAt e (pt i) (pt (i + 1)) (pt (i + 1 + 1)))
   ∧ (∀ i, i < m + 1 → e.hwFw * (|jtau pt i| + |jtau pt (i + 1)| + 1) ≤ eL pt (i + 1))
-  ∧ (∀ i, i < m + 1 → e.o.join = .miterClip → keptAt e (pt i) (pt (i + 1)) (pt (i + 1 + 1)))
 
 noncomputable instance (e : Env K) (eps : K) (pt : Nat → P K) (m : Nat) : Decidable (RegimeC e eps pt m) := by
-  unfold RegimeC noFoldAt keptAt; infer_instance
+  unfold RegimeC noFoldAt; infer_instance
 
 section Periodic
 variable {pt : Nat → P K} {N : Nat} (hper : ∀ i, pt (i + N) = pt i)
@@ -93,9 +91,9 @@ every edge satisfies the length condition -/
 theorem regimeC_all {e : Env K} {eps : K} (h : CoverHyp e eps) {pt : Nat → P K} {m : Nat}
     (hper : ∀ i, pt (i + (m + 1)) = pt i) (hr : RegimeC e eps pt m) :
     (∀ i, 0 < (pt (i + 1) - pt i).sqLen)
-    ∧ (∀ i, JClosed e pt i (psAt e pt (i + 1)) (nsAt e pt (i + 1)))
+    ∧ (∀ i, JClosed e pt i (psAt e pt (i + 1)) (nsAt e pt (i + 1)) (lamAt e pt (i + 1)))
     ∧ (∀ i, e.hwFw * (|jtau pt i| + |jtau pt (i + 1)| + 1) ≤ eL pt (i + 1)) := by
-  obtain ⟨r1, r2, r3, r4, r5, r6⟩ := hr
+  obtain ⟨r1, r2, r3, r4, r5⟩ := hr
   have hN : 0 < m + 1 := by omega
   have a2 : ∀ i, eps < eL pt i :=
     per_all (m + 1) hN (fun i => eps < eL pt i) (fun i => by show eps < eL pt (i + (m + 1)) ↔ _; rw [eL_per hper]) r2
@@ -111,17 +109,6 @@ theorem regimeC_all {e : Env K} {eps : K} (h : CoverHyp e eps) {pt : Nat → P K
     per_all (m + 1) hN (fun i => e.hwFw * (|jtau pt i| + |jtau pt (i + 1)| + 1) ≤ eL pt (i + 1))
       (fun i => by show e.hwFw * (|jtau pt (i + (m + 1))| + |jtau pt (i + (m + 1) + 1)| + 1) ≤ eL pt (i + (m + 1) + 1) ↔ _
                    rw [jtau_per hper, jtau_per1 hper, eL_per1 hper]) r5
-  have a6 : ∀ i, e.o.join = .miterClip → keptAt e (pt i) (pt (i + 1)) (pt (i + 1 + 1)) :=
-    per_all (m + 1) hN (fun i => e.o.join = .miterClip → keptAt e (pt i) (pt (i + 1)) (pt (i + 1 + 1)))
-      (fun i => by show (e.o.join = .miterClip → keptAt e (pt (i + (m + 1))) (pt (i + (m + 1) + 1)) (pt (i + (m + 1) + 1 + 1))) ↔ _
-                   rw [hper, pt_per1 hper, pt_per2 hper]) r6
-  have hjoin : ∀ i, e.o.join = .bevel ∨ e.o.join = .miter
-      ∨ (e.o.join = .miterClip ∧ keptAt e (pt i) (pt (i + 1)) (pt (i + 1 + 1))) := by
-    intro i
-    rcases h.join with hj | hj | hj
-    · exact Or.inl hj
-    · exact Or.inr (Or.inl hj)
-    · exact Or.inr (Or.inr ⟨hj, a6 i hj⟩)
   have hsq : ∀ i, 0 < (pt (i + 1) - pt i).sqLen := by
     intro i
     have hnn : (0 : K) ≤ (pt (i + 1) - pt i).sqLen := by
@@ -129,13 +116,13 @@ theorem regimeC_all {e : Env K} {eps : K} (h : CoverHyp e eps) {pt : Nat → P K
     have h2 : eL pt i * eL pt i = (pt (i + 1) - pt i).sqLen := h.sqrt_sq _ hnn
     have hpos : 0 < eL pt i := lt_of_le_of_lt h.eps_nonneg (a2 i)
     rw [← h2]; exact mul_pos hpos hpos
-  exact ⟨hsq, fun i => jEP_closed e h.sqrt_nonneg h.sqrt_sq pt i (hjoin i) (hsq i) (hsq (i + 1)) (a3 i) (a4 i), a5⟩
+  exact ⟨hsq, fun i => jEP_closed e eps h.ix_eq h.eps_nonneg h.sqrt_nonneg h.sqrt_sq pt i h.join4 h.clip h.hw (hsq i) (hsq (i + 1)) (a3 i) (a4 i), a5⟩
 
 /-- around every edge index `≥ 2` of a closed polygon in the regime the local hypotheses hold -/
 theorem around_closed {e : Env K} {eps : K} (h : CoverHyp e eps) {pt : Nat → P K} {m : Nat}
     (hper : ∀ i, pt (i + (m + 1)) = pt i) (hr : RegimeC e eps pt m) {o : Out K} (hE : EmittedC e pt m o)
     (hm : 2 ≤ m) (j : Nat) : Around e eps pt o (j + 2) := by
-  obtain ⟨r1, r2, r3, r4, r5, r6⟩ := hr
+  obtain ⟨r1, r2, r3, r4, r5⟩ := hr
   have hN : 0 < m + 1 := by omega
   -- every condition holds at every index
   have a2 : ∀ i, eps < eL pt i :=
@@ -152,17 +139,6 @@ theorem around_closed {e : Env K} {eps : K} (h : CoverHyp e eps) {pt : Nat → P
     per_all (m + 1) hN (fun i => e.hwFw * (|jtau pt i| + |jtau pt (i + 1)| + 1) ≤ eL pt (i + 1))
       (fun i => by show e.hwFw * (|jtau pt (i + (m + 1))| + |jtau pt (i + (m + 1) + 1)| + 1) ≤ eL pt (i + (m + 1) + 1) ↔ _
                    rw [jtau_per hper, jtau_per1 hper, eL_per1 hper]) r5
-  have a6 : ∀ i, e.o.join = .miterClip → keptAt e (pt i) (pt (i + 1)) (pt (i + 1 + 1)) :=
-    per_all (m + 1) hN (fun i => e.o.join = .miterClip → keptAt e (pt i) (pt (i + 1)) (pt (i + 1 + 1)))
-      (fun i => by show (e.o.join = .miterClip → keptAt e (pt (i + (m + 1))) (pt (i + (m + 1) + 1)) (pt (i + (m + 1) + 1 + 1))) ↔ _
-                   rw [hper, pt_per1 hper, pt_per2 hper]) r6
-  have hjoin : ∀ i, e.o.join = .bevel ∨ e.o.join = .miter
-      ∨ (e.o.join = .miterClip ∧ keptAt e (pt i) (pt (i + 1)) (pt (i + 1 + 1))) := by
-    intro i
-    rcases h.join with hj | hj | hj
-    · exact Or.inl hj
-    · exact Or.inr (Or.inl hj)
-    · exact Or.inr (Or.inr ⟨hj, a6 i hj⟩)
   have hsq : ∀ i, 0 < (pt (i + 1) - pt i).sqLen := by
     intro i
     have hnn : (0 : K) ≤ (pt (i + 1) - pt i).sqLen := by
@@ -170,8 +146,8 @@ theorem around_closed {e : Env K} {eps : K} (h : CoverHyp e eps) {pt : Nat → P
     have h2 : eL pt i * eL pt i = (pt (i + 1) - pt i).sqLen := h.sqrt_sq _ hnn
     have hpos : 0 < eL pt i := lt_of_le_of_lt h.eps_nonneg (a2 i)
     rw [← h2]; exact mul_pos hpos hpos
-  have hjc : ∀ i, JClosed e pt i (psAt e pt (i + 1)) (nsAt e pt (i + 1)) := fun i =>
-    jEP_closed e h.sqrt_nonneg h.sqrt_sq pt i (hjoin i) (hsq i) (hsq (i + 1)) (a3 i) (a4 i)
+  have hjc : ∀ i, JClosed e pt i (psAt e pt (i + 1)) (nsAt e pt (i + 1)) (lamAt e pt (i + 1)) := fun i =>
+    jEP_closed e eps h.ix_eq h.eps_nonneg h.sqrt_nonneg h.sqrt_sq pt i h.join4 h.clip h.hw (hsq i) (hsq (i + 1)) (a3 i) (a4 i)
   -- every quad and every join triangle is emitted
   have hquads : ∀ i, EmQuadJ o (jEP e pt (i + 1)) (jEP e pt (i + 1 + 1)) := by
     refine per_all (m + 1) hN (fun i => EmQuadJ o (jEP e pt (i + 1)) (jEP e pt (i + 1 + 1))) ?_ ?_
@@ -233,7 +209,7 @@ variable {K : Type} [Field K] [LinearOrder K] [IsStrictOrderedRing K] [Transc K]
 theorem regimeC_emitted {e : Env K} {eps : K} (h : CoverHyp e eps) (store : Nat → List K) {pt : Nat → P K} {m : Nat}
     (hper : ∀ i, pt (i + (m + 1)) = pt i) (hm : 2 ≤ m) (hr : RegimeC e eps pt m) :
     EmittedC e pt m (runEvents e store (polyEvsC pt m)).st.out := by
-  obtain ⟨r1, r2, r3, r4, r5, r6⟩ := hr
+  obtain ⟨r1, r2, r3, r4, r5⟩ := hr
   have hN : 0 < m + 1 := by omega
   have a1 : ∀ i, pointsAreTooClose e.thr (pt i) (pt (i + 1)) = false :=
     per_all (m + 1) hN (fun i => pointsAreTooClose e.thr (pt i) (pt (i + 1)) = false)
@@ -243,8 +219,7 @@ theorem regimeC_emitted {e : Env K} {eps : K} (h : CoverHyp e eps) (store : Nat 
     per_all (m + 1) hN (fun i => noFoldAt e (pt i) (pt (i + 1)) (pt (i + 1 + 1)))
       (fun i => by show noFoldAt e (pt (i + (m + 1))) (pt (i + (m + 1) + 1)) (pt (i + (m + 1) + 1 + 1)) ↔ _
                    rw [hper, pt_per1 hper, pt_per2 hper]) r4
-  refine run_emitted_closed e store h.fw ?_ (ne_of_gt h.hw) pt m hm ?_ ?_ (fun i _ => a1 i) ?_
-  · rcases h.join with hj | hj | hj <;> rw [hj] <;> decide
+  refine run_emitted_closed e store h.fw h.roundOK (ne_of_gt h.hw) pt m hm ?_ ?_ (fun i _ => a1 i) ?_
   · have := hper 0; simpa using this
   · have := hper 1; rw [show 1 + (m + 1) = m + 1 + 1 by omega] at this; exact this
   · intro i h1 h2
